@@ -340,29 +340,50 @@ def run(ctx, rep):
                 [A.src(a) for a in c.args[2:]] == p[1:1 + nops] and [A.src(a) for a in A.find_calls(locs[0].ast, local_call)[0].args] == p[:1 + nops]
         rep.ob("R02.7", "BaseNetref.%s: local names stay local, others are sent with (%s)" % (meth, ", ".join(p[1:1 + nops])), ok,
                "guarded by `name in LOCAL_ATTRS`" if ok else "%s no longer splits on LOCAL_ATTRS / forwards its operands" % meth, f.loc)
+    # __getattribute__: model evaluation per kind of name
     f = bn.methods["__getattribute__"]
-    g3 = ctx.cfg(f)
-    dom3 = Q.dominators(g3)
+    rep.analysed(f)
     p = A.params(f.node)
-    sends = [n for n in g3.live if n.ast is not None and n.kind == "stmt" and any(
-        (A.call_name(c) or "").endswith("syncreq") for c in A.calls(n.ast))]
-    ok = bool(sends)
-    for s in sends:
-        cs = {A.src(t.ast): pol for t, pol in Q.dominating_conditions(g3, s, dom3)}
-        c = [c for c in A.calls(s.ast) if (A.call_name(c) or "").endswith("syncreq")][0]
-        ok = ok and cs.get("%s in LOCAL_ATTRS" % p[1]) is False and ctx.try_fold(c.args[1]) == HG and A.src(c.args[2]) == p[1]
-    rep.ob("R02.7", "BaseNetref.__getattribute__: only non-local names are fetched from the owner, by their own name", ok,
-           "syncreq(self, HANDLE_GETATTR, name) under `name not in LOCAL_ATTRS`" if ok else
-           "__getattribute__ forwards local names or a different name", f.loc)
-    objget = [n for n in g3.live if n.ast is not None and n.kind == "stmt" and isinstance(n.ast, ast.Return) and
-              A.src(n.ast.value) == "object.__getattribute__(%s, %s)" % (p[0], p[1])]
-    okl = False
-    for n in objget:
-        cs = {A.src(t.ast): pol for t, pol in Q.dominating_conditions(g3, n, dom3)}
-        if cs.get("%s in LOCAL_ATTRS" % p[1]) is True:
-            okl = True
-    rep.ob("R02.7", "BaseNetref.__getattribute__: local names are read from the proxy object itself", okl,
-           "object.__getattribute__(self, name) under `name in LOCAL_ATTRS`" if okl else "local names are not served locally", f.loc)
+    from .. import miniinterp as MI2
+    deleted = sorted(DELETED)[0] if DELETED else None
+    plain_local = sorted(n_ for n_ in LOCAL if n_ not in DELETED and n_ not in ("__class__", "__doc__"))[0]
+    cases = [("foo", None, ("syncreq", HG, "foo")), ("__len__", None, ("syncreq", HG, "__len__")),
+             (plain_local, None, ("objget", plain_local)), ("__call__", None, ("objget", "__call__")),
+             ("__array__", None, ("objget", "__array__")), ("__doc__", None, ("getattr", "__doc__")),
+             ("__class__", "CLS", ("objget", "__class__")), ("__class__", None, ("getattr", "__class__"))]
+    if deleted:
+        cases.append((deleted, None, ("raise", "AttributeError")))
+    bad_ga = []
+    for name_, cls_val, want in cases:
+        log = []
+
+        def objget(s_, n_, log=log, cls_val=cls_val):
+            log.append(("objget", n_))
+            return cls_val if n_ == "__class__" else ("local", n_)
+
+        def getattr_(n_, log=log):
+            log.append(("getattr", n_))
+            return ("remote", n_)
+
+        def syncreq_(s_, h_, *a_, log=log):
+            log.append(("syncreq", h_) + a_)
+            return ("remote", a_)
+        hooks = {"object.__getattribute__": objget, "%s.__getattr__" % p[0]: getattr_, "syncreq": syncreq_}
+        try:
+            MI2.call_method(f.node, {}, [name_], {"__calls__": hooks, "__globals__": {"LOCAL_ATTRS": LOCAL, "DELETED_ATTRS": DELETED},
+                                                   "__values__": {"consts.HANDLE_GETATTR": HG}})
+            last = log[-1] if log else ("nothing",)
+        except MI2.Raised as r_:
+            last = ("raise", r_.name)
+        if last != want or (want[0] == "syncreq" and len([x for x in log if x[0] == "syncreq"]) != 1) or \
+                (want[0] in ("objget", "raise") and any(x[0] in ("syncreq", "getattr") for x in log)):
+            bad_ga.append("%r%s -> %s (expected %s)" % (name_, "" if name_ != "__class__" else " [class slot %s]" % cls_val, log or last, want))
+    rep.ob("R02.7", "BaseNetref.__getattribute__: only non-local names are fetched from the owner, by their own name",
+           not [b_ for b_ in bad_ga if "syncreq" in b_], "%d kinds of name evaluated" % len(cases) if not bad_ga else "; ".join(bad_ga)[:400],
+           f.loc, kind="table")
+    rep.ob("R02.7", "BaseNetref.__getattribute__: local names are read from the proxy object itself", not bad_ga,
+           "local names -> object.__getattribute__; __doc__/unset __class__ -> owner; deleted names -> AttributeError" if not bad_ga
+           else "; ".join(bad_ga)[:400], f.loc, kind="table")
     fga = bn.methods["__getattr__"]
     reqs = c19.request_ids(ctx, fga.node)
     okga = len(reqs) == 1 and reqs[0][1] == HG and A.src(reqs[0][2][0]) == A.params(fga.node)[1]
